@@ -772,6 +772,8 @@ def check_zero_tolerance(run, ix):
     is non-zero (with a fallback for n == 0), as _djacobi_theta3a does."""
     run.rule('T-R13', floor=1, desc='a relative tolerance is not taken from a term that vanishes at index 0')
     judged = 0
+    run.rule('T-R14', floor=5, desc='unbounded term generators of sum_accurately: counter cap, factorial decay or a bound before')
+    check_generator_term_bound(run, ix)
     for rel, m in sorted(ix.modules.items()):
         if not rel.startswith('mpmath/functions/'):
             continue
@@ -824,3 +826,63 @@ def check_zero_tolerance(run, ix):
                         scan(st.orelse, guards)
             scan(body, [])
     run.stats['zero_tolerance_sites'] = judged
+
+
+def check_generator_term_bound(run, ix):
+    """T-R14.  sum_accurately stops a `while 1` term generator only when the terms have become small against the sum;
+    how many terms that takes is decided by the ARGUMENT (decay rate).  A generator with an unbounded loop is
+    accepted when (i) its loop compares a counter with a bound and leaves (break / return / raise), or (ii) its terms
+    decay factorially (the running term is divided by the loop counter), or (iii) the enclosing function bounds the
+    number of terms before the generator is defined (a raise under a comparison that involves the quantity the loop
+    scales by).  Otherwise an argument with a slow decay keeps the loop busy for an astronomic number of terms
+    (primezeta(mpc(2**-40, 1)): 7e13 evaluations of zeta)."""
+    for f in ix.all_funcs():
+        if '/tests/' in f.file:
+            continue
+        for c in _walk_own(f.node):
+            if not (isinstance(c, ast.Call) and norm(c.func).endswith('sum_accurately') and c.args and
+                    isinstance(c.args[0], ast.Name)):
+                continue
+            gens = [nf for nf in f.nested if nf.name == c.args[0].id]
+            if not gens:
+                continue
+            g = gens[0]
+            loops = [x for x in ast.walk(g.node) if isinstance(x, ast.While) and isinstance(x.test, ast.Constant)
+                     and x.test.value]
+            for lp in loops:
+                counters = set()
+                for x in own_nodes(lp):
+                    if isinstance(x, ast.AugAssign) and isinstance(x.op, ast.Add) and isinstance(x.target, ast.Name) \
+                            and isinstance(x.value, ast.Constant):
+                        counters.add(x.target.id)
+                capped = False
+                for x in own_nodes(lp):
+                    if isinstance(x, ast.If) and isinstance(x.test, ast.Compare) and \
+                            any(isinstance(n_, ast.Name) and n_.id in counters for n_ in ast.walk(x.test.left)) and \
+                            isinstance(x.test.ops[0], (ast.Gt, ast.GtE)) and \
+                            any(isinstance(b, (ast.Break, ast.Return, ast.Raise)) for b in x.body):
+                        capped = True
+                factorial = False
+                for x in own_nodes(lp):
+                    if isinstance(x, ast.Assign) and isinstance(x.value, ast.BinOp) and isinstance(x.value.op, ast.Div) \
+                            and isinstance(x.value.right, ast.Name) and x.value.right.id in counters and \
+                            any(isinstance(n_, ast.Name) and n_.id == norm(x.targets[0]) for n_ in ast.walk(x.value.left)):
+                        factorial = True
+                before = False
+                for st in f.node.body:
+                    if st.lineno >= g.node.lineno:
+                        break
+                for x in _walk_own(f.node):
+                    if isinstance(x, ast.If) and x.lineno < g.node.lineno and isinstance(x.test, ast.Compare) and \
+                            any(isinstance(b, ast.Raise) and 'NoConvergence' in norm(b) for b in x.body):
+                        before = True
+                if capped or factorial or before:
+                    run.ok('T-R14', '%s.%s: %s' % (f.qualname, g.name, 'counter cap inside the loop' if capped else
+                                                  ('factorial decay of the terms' if factorial else
+                                                   'term count bounded before the generator')))
+                else:
+                    run.fail(Finding('T-R14', f.file, f.qualname, 'def %s' % g.name,
+                                     'the `while 1` loop of the term generator handed to sum_accurately has no cap on its '
+                                     'counter, no factorial decay, and the number of terms is not bounded before: it ends only '
+                                     'when the terms have decayed, after a number of terms set by the argument '
+                                     '(primezeta(mpc(2**-40, 1)) needs 7e13 evaluations of zeta)', line=g.node.lineno))
